@@ -60,7 +60,7 @@ fn first_diff(a: &[u8], b: &[u8]) -> String {
     format!("lengths {} vs {}, first difference at byte {i}", a.len(), b.len())
 }
 
-/// the 64 logical archives of the cross-process clause (many tiles, duplicate contents, multi-key metadata)
+/// the 66 logical archives of the cross-process clause (many tiles, duplicate contents, multi-key metadata)
 pub fn process_corpus() -> Vec<Logical> {
     let mut v = Vec::new();
     for i in 0..64usize {
@@ -77,6 +77,10 @@ pub fn process_corpus() -> Vec<Logical> {
         l.settings.coords = [i as f64 * 1.000_000_1, -(i as f64) / 3.0, 12.5, 45.000_000_05, 0.1 * i as f64, 2.5e-7 * i as f64];
         v.push(l);
     }
+    // archives whose directory spills into several leaf directories (six and three leaves): their leaf section has an
+    // order of its own, which must not depend on anything but the content
+    v.push(window_logical(0, 21_000, Compression::None));
+    v.push(window_logical(1, 9_000, Compression::GZip));
     v
 }
 
@@ -98,7 +102,7 @@ pub fn run(tier: &str) -> i32 {
     let rep = Report::new("C16", tier, "model_checking");
     let thorough = rep.thorough();
     let maxlen = if thorough { 5 } else { 4 };
-    rep.rule(&format!("(a) ALL operation sequences of length <= {maxlen} over add(id in {{0,1,5}}, c in {{AA,BB}}) / remove(id) / save+reopen(sync|async) from fresh sync and async objects, executed without state merging, grouped by (final content, compression, writer flavour): one byte image per group; (b) all 720 [thorough: 5040] insertion orders of 6 [7] tiles; (b2) all 120 insertion orders of 5 metadata keys x nested-key order x remove/re-insert detour; (c) every small map written from memory, from a reopened copy and from a mixed object: identical bytes; (d) 64 archives written in {} separate OS processes: identical digests; (e) rewrite: to_writer(from_bytes(b)) == b for every archive of the C01 corpus, foreign archives idempotent after one normalising rewrite; non-trivial = groups with >= 2 histories", if thorough { 16 } else { 4 }));
+    rep.rule(&format!("(a) ALL operation sequences of length <= {maxlen} over add(id in {{0,1,5}}, c in {{AA,BB}}) / remove(id) / save+reopen(sync|async) from fresh sync and async objects, executed without state merging, grouped by (final content, compression, writer flavour): one byte image per group; (b) all 720 [thorough: 5040] insertion orders of 6 [7] tiles; (b2) all 120 insertion orders of 5 metadata keys x nested-key order x remove/re-insert detour; (c) every small map written from memory, from a reopened copy and from a mixed object: identical bytes; (d) 66 archives (two of them with several leaf directories) written in {} separate OS processes, and the two multi-leaf ones six times in this process: identical digests; (e) rewrite: to_writer(from_bytes(b)) == b for every archive of the C01 corpus, foreign archives idempotent after one normalising rewrite; non-trivial = groups with >= 2 histories", if thorough { 16 } else { 4 }));
     rep.assume("compressed bytes are compared as produced by the same codec configuration within one writer flavour (sync and async writers use different encoders and are never compared with each other)");
 
     // ---- (a) histories
@@ -277,6 +281,27 @@ pub fn run(tier: &str) -> i32 {
     }
 
     if std::env::var("VERIF_VERBOSE").is_ok() { println!("  t={:.1}s before // ---- (d) separate OS processes", rep_t0.elapsed().as_secs_f64()); }
+    // ---- (d0) the multi-leaf archives written repeatedly in this process (16 worker threads busy around them)
+    {
+        let pc = process_corpus();
+        let jobs: Vec<(usize, Api, usize)> = (64..pc.len()).flat_map(|i| APIS.into_iter().flat_map(move |a| (0..6usize).map(move |r| (i, a, r)))).collect();
+        let digests: Vec<(usize, Api, Result<(u64, usize), String>)> = jobs.par_iter().map(|(i, a, _)| (*i, *a, write_lib(&pc[*i], *a).map(|b| (fnv(&b), b.len())))).collect();
+        let mut first: BTreeMap<(usize, u8), (u64, usize)> = BTreeMap::new();
+        for (i, a, d) in digests {
+            match d {
+                Ok(d) => {
+                    let k = (i, if a == Api::Sync { 0u8 } else { 1 });
+                    let f = *first.entry(k).or_insert(d);
+                    if f != d {
+                        rep.violation("repeated-write-differs", format!("archive {i} of the process corpus ({} writer) written twice in one process gives different bytes (lengths {} and {})", a.name(), f.1, d.1), json!({"kind":"repeated-write","index":i,"api":a.name()}));
+                    }
+                }
+                Err(e) => rep.violation("write-failed/repeated-write", e, json!({"kind":"repeated-write","index":i,"api":a.name()})),
+            }
+        }
+        rep.eval(jobs.len() as u64);
+        rep.count("repeated_multi_leaf_writes", jobs.len() as u64);
+    }
     // ---- (d) separate OS processes
     let nproc = if thorough { 16 } else { 4 };
     let exe = std::env::current_exe().unwrap();
@@ -302,8 +327,8 @@ pub fn run(tier: &str) -> i32 {
             }
         }
     }
-    rep.eval(nproc as u64 * 128);
-    rep.nontrivial(128);
+    rep.eval(nproc as u64 * 132);
+    rep.nontrivial(132);
     rep.count("processes", nproc as u64);
     if distinct.len() != 1 {
         let v: Vec<&String> = distinct.iter().collect();
@@ -425,6 +450,13 @@ fn permute(v: &mut Vec<u64>, k: usize, out: &mut Vec<Vec<u64>>) {
 
 pub fn replay(case: &Value) -> Vec<String> {
     match case["kind"].as_str() {
+        Some("repeated-write") => {
+            let pc = process_corpus();
+            let i = case["index"].as_u64().unwrap_or(64) as usize;
+            let api = if case["api"].as_str() == Some("async") { Api::Async } else { Api::Sync };
+            let ds: BTreeSet<Result<u64, String>> = (0..8).into_par_iter().map(|_| write_lib(&pc[i.min(pc.len() - 1)], api).map(|b| fnv(&b))).collect::<Vec<_>>().into_iter().collect();
+            if ds.len() > 1 { vec!["the same archive written 8 times gives different bytes".to_string()] } else { vec![] }
+        }
         Some("history-pair") => {
             let alpha = hist_alphabet();
             let init = case["init_index"].as_u64().unwrap_or(0) as usize;
